@@ -1625,6 +1625,15 @@ def check_C13(tier, seed, replay=None):
            b"A <- func\n", b"func <- 'a'\n", b"A <- type:'a' { return type, nil }\n", b"", b"\n\n", b"A <- 'a'", b"A = 'a' ; B \xe2\x86\x90 'b' ; C \xe2\x9f\xb5 A B",
            b"A <- [\\p{Latin]]\n", b"A <- [a\\p{Greek]x]\n", b"A <- [\\p{]]\n", b"A <- [\\p{Latin]\n", b"A <- [\\p{Latin]]i 'x'\nB <- [\\pL\\p{Nd]-]\n",
            b"A \"disp\\\"lay\" <- 'a'\n", b"A <- 'a'i \"B\"i `c`i [d]i .\n", b"A <- ( ( ( 'a' ) ) )\n", b"A <- 'a' / \n", b"A <- / 'a'\n", b"A <- ()\n"]
+    # size and depth: nesting of every bracketing construct, long sequences and choices, many rules (a front-end that
+    # re-parses a sub-expression on backtracking takes time exponential in the depth)
+    def nest(open_, close_, n, core=b"'a'"):
+        return b"A <- " + open_ * n + core + close_ * n + b"\n"
+    odd += [nest(b"(", b")", 40), nest(b"( ", b" )", 25), nest(b"(", b")*", 30), nest(b"&(", b")", 30), nest(b"!(", b")?", 30), nest(b"l:(", b")", 30),
+            nest(b"('b' / ", b")", 30), nest(b"('b' ", b" 'c')", 30), nest(b"(", b" //{e} 'r')", 30), nest(b"(", b" { return 1, nil })", 30),
+            b"A <- 'a' { " + b"{" * 300 + b"}" * 300 + b" return nil, nil }\n", b"A <- " + b" / ".join(b"'a%d'" % i for i in range(1500)) + b"\n",
+            b"A <- " + b" ".join(b"'a'" for i in range(3000)) + b"\n", b"".join(b"R%d <- R%d 'x' / 'y'\n" % (i, i + 1) for i in range(400)) + b"R400 <- 'z'\n",
+            b"A <- [" + b"a-z" * 500 + b"]\n", b"A <- \"" + b"\\u00e9" * 2000 + b"\"\n"]
     for o in odd:
         texts.append(("odd", head + o))
         texts.append(("odd", o))
